@@ -138,6 +138,19 @@ func (tc *tokenConverter) handleCompoundToken(t models.TokenWithSpan) []token.To
 		}
 	}
 
+	// The value-based expansion below is for keyword tokens only. A string
+	// literal or quoted identifier that merely spells a compound keyword
+	// ('left join', "group by") is one token and stays one.
+	switch t.Token.Type {
+	case models.TokenTypeString, models.TokenTypeSingleQuotedString, models.TokenTypeDoubleQuotedString,
+		models.TokenTypeTripleSingleQuotedString, models.TokenTypeTripleDoubleQuotedString,
+		models.TokenTypeDollarQuotedString, models.TokenTypePlaceholder, models.TokenTypeNumber:
+		return nil
+	}
+	if t.Token.Quote != 0 {
+		return nil
+	}
+
 	switch strings.ToUpper(t.Token.Value) {
 	case "INNER JOIN":
 		return []token.Token{
